@@ -17,19 +17,39 @@ def key_cfg(keys, abbr, dashes=None):
     return {"abbr": abbr, "endvalues": False, "hcons": [], "args": args, "lenient": True}
 
 
-def lookups(keys):
-    """one-word command lines for every exact key and every prefix (length >= 2) of every long key."""
+def lookups(keys, subs=()):
+    """one-word command lines for every exact key and every prefix (length >= 2) of every long key.  `subs`: positions of
+    the arguments that are sub-groups (their key takes no value; the value-less and the valued form are both tried when a
+    word could mean a sub-group and an ordinary argument)."""
     acts, seen = [], set()
+    subkeys = [keys[i] for i in subs]
     for s, l in keys:
         if s and s not in seen:
             seen.add(s)
-            acts.append(eval_action(["-" + chr(s), "1"], tag={"k": "lookup"}))
+            if any(ks == s for ks, _ in subkeys):
+                acts.append(eval_action(["-" + chr(s)], tag={"k": "lookup"}))
+            if any(ks == s for i, (ks, _) in enumerate(keys) if i not in subs):
+                acts.append(eval_action(["-" + chr(s), "1"], tag={"k": "lookup"}))
         for n in range(2, len(l) + 1):
             w = S(l[:n])
             if w not in seen:
                 seen.add(w)
-                acts.append(eval_action(["--" + w + "=1"], tag={"k": "lookup"}))
+                if any(S(kl).startswith(w) for _, kl in subkeys):
+                    acts.append(eval_action(["--" + w], tag={"k": "lookup"}))
+                if any(S(kl).startswith(w) for i, (_, kl) in enumerate(keys) if i not in subs):
+                    acts.append(eval_action(["--" + w + "=1"], tag={"k": "lookup"}))
     return acts
+
+
+def sub_key_cfg(keys, abbr, subs):
+    """key table in which the arguments at the positions `subs` are sub-groups (each with one flag 'Z' of its own)."""
+    cfg = key_cfg(keys, abbr)
+    for i in subs:
+        inner = arggen.new_arg("flag"); inner["s"] = ord("Z"); inner["card"] = {"t": "none", "a": 0, "b": 0}
+        a = cfg["args"][i]
+        a["kind"] = "sub"; a["init"] = False; a["subctor"] = 0
+        a["sub"] = {"abbr": abbr, "endvalues": False, "hcons": [], "args": [inner]}
+    return cfg
 
 
 def run(tier):
@@ -70,6 +90,30 @@ def run(tier):
         for order in ([keys, list(reversed(keys))] + [g.sample(keys, len(keys)) for _ in range(2)]):
             dashes = [g.random() < 0.3 for _ in order]
             blocks.append((key_cfg(order, g.random() < 0.8, dashes), [{"n": "Define", "mode": "handler"}] + lookups(order)))
+    # T2: the same with one or two of the arguments being sub-groups (Handler::addArgument( key, subHandler, desc)): a key
+    # designates at most one argument of the handler whatever kind the arguments are
+    # (every rejection is confirmed by TLC runs of its own, and the known finding below rejects most tables with related keys:
+    # four of five tables give their sub-groups keys that are unrelated to the other keys, where everything is as specified)
+    nsub = 0
+    substems = ["group", "sub", "subgroup", "target", "tar", "extra"]
+    for t in range(30 if tier == "quick" else 600):
+        k = g.randint(2, 8)
+        keys = []
+        subs = set(g.sample(range(k), g.randint(1, 2)))
+        for i in range(k):
+            pool, shorts = (substems, "STUW") if (t % 5 != 0 and i in subs) else (stems, "abcdefgvno")
+            l = g.choice(pool) if g.random() < 0.8 else ""
+            if len(l) == 1:
+                s, l = ord(l), ""
+            else:
+                s = ord(g.choice(shorts)) if g.random() < 0.6 or not l else 0
+            keys.append((s, T(l)))
+        for order_idx in ([list(range(k)), list(reversed(range(k)))] + [g.sample(range(k), k)]):
+            order = [keys[i] for i in order_idx]
+            osubs = {n for n, i in enumerate(order_idx) if i in subs}
+            blocks.append((sub_key_cfg(order, g.random() < 0.8, osubs), [{"n": "Define", "mode": "handler"}] + lookups(order, osubs)))
+            nsub += 1
+    c.notes.append("T2: %d key tables with sub-group arguments among the ordinary ones" % nsub)
     script2 = os.path.join(c.wd, "random.ndjson")
     write_cases(script2, blocks)
     run_script(c, exe, script2, "T")
